@@ -53,6 +53,7 @@ func main() {
 		}
 
 		schema := reflector.Reflect(t.input)
+		constrainUnions(schema)
 		schema.ID = jsonschema.ID(fmt.Sprintf("https://raw.githubusercontent.com/grafana/cog/main/schemas/%s.json", t.name))
 
 		schemaJSON, err := json.MarshalIndent(schema, "", "  ")
@@ -62,6 +63,29 @@ func main() {
 
 		if err := os.WriteFile(fmt.Sprintf("./schemas/%s.json", t.name), schemaJSON, 0600); err != nil {
 			panic(fmt.Errorf("could not write schema: %w", err))
+		}
+	}
+}
+
+// constrainUnions adds what the reflection of the structs can't tell: the
+// loaders refuse a rule entry without action and a selector without criterion.
+func constrainUnions(schema *jsonschema.Schema) {
+	one := uint64(1)
+
+	for _, name := range []string{
+		"YamlCompilerPass", "YamlBuilderRule", "YamlOptionRule",
+		"YamlBuilderSelector", "YamlOptionSelector",
+	} {
+		if definition, found := schema.Definitions[name]; found {
+			definition.MinProperties = &one
+		}
+	}
+
+	// `by_names: {options: [...]}` needs the object or the builder the options belong to
+	if definition, found := schema.Definitions["YamlByNamesSelector"]; found {
+		definition.AnyOf = []*jsonschema.Schema{
+			{Required: []string{"object"}},
+			{Required: []string{"builder"}},
 		}
 	}
 }
